@@ -23,6 +23,7 @@ type pstage struct {
 	dst    string // file the command writes
 	noCmd  bool
 	static string // a second file inside a directory output that the command leaves alone
+	skip   bool   // the output is skip-cache (kept out of the cache, e.g. a metrics file)
 }
 
 type pipeline struct {
@@ -56,6 +57,10 @@ func genDAG(r *rng, n int, s *summary) *pipeline {
 		} else {
 			st.out = fmt.Sprintf("o%d.txt", i)
 			st.dst = st.out
+			if r.chance(1, 4) {
+				st.skip = true
+				s.count("output:skip-cache")
+			}
 		}
 		// inputs
 		k := 0
@@ -146,8 +151,9 @@ func dedup(l []string) []string {
 func genCycle(r *rng, k int, prefix bool) *pipeline {
 	pl := &pipeline{cyclic: true, sources: []string{"src0.txt"}}
 	names := []string{"a.yaml", "b.yaml", "c.yaml", "d.yaml"}
+	skipEdges := r.chance(1, 2) // the cycle may run through skip-cache outputs
 	for i := 0; i < k; i++ {
-		st := &pstage{file: names[i], out: fmt.Sprintf("o%d.txt", i)}
+		st := &pstage{file: names[i], out: fmt.Sprintf("o%d.txt", i), skip: skipEdges}
 		st.dst = st.out
 		prev := fmt.Sprintf("o%d.txt", (i+k-1)%k)
 		st.ins = []string{prev}
@@ -176,7 +182,7 @@ func (st *pstage) rec(cmdSuffix string) *StageRec {
 		// a directory-valued input is declared is-dir
 		rec.In = append(rec.In, Art{Path: in})
 	}
-	rec.Out = []Art{{Path: st.out, IsDir: st.outDir}}
+	rec.Out = []Art{{Path: st.out, IsDir: st.outDir, Skip: st.skip}}
 	return rec
 }
 
@@ -290,6 +296,7 @@ func onePipe(o *opts, r *rng, s *summary, i int, pl *pipeline, distinct map[stri
 	}
 	version := 0
 	lastFullRun := false
+	blessedStale := false // a commit was made without a run before it: stale outputs may be on record
 	for k := 0; k < steps; k++ {
 		switch op := r.intn(10); {
 		case op < 4: // run
@@ -439,6 +446,28 @@ func onePipe(o *opts, r *rng, s *summary, i int, pl *pipeline, distinct map[stri
 					if t.OK {
 						t, w = p.do(Cmd{Kind: "commit", Targets: []string{a.file}}, sems, want(11, 1, 27), nil, nil)
 						add(t, "commit upstream stage only")
+						if t.OK && r.chance(1, 2) {
+							// the source changes once more and only a DOWNSTREAM stage is asked for: the
+							// upstream stage must run first although the records of the two disagree
+							version++
+							for _, in := range a.ins {
+								must(os.WriteFile(filepath.Join(p.Root, in), []byte(fmt.Sprintf("%s-v%d\n", in, version)), 0o644))
+							}
+							for _, b := range pl.stages {
+								isDown := false
+								for _, in := range b.ins {
+									if in == a.out || in == a.dst {
+										isDown = true
+									}
+								}
+								if isDown {
+									t, w = p.do(Cmd{Kind: "run", Targets: []string{b.file}}, sems, want(18, 19, 23, 8, 9), nil, nil)
+									add(t, "run a downstream target after its upstream was committed and the source edited again")
+									s.count("history:edit;run up;commit up;edit;run down")
+									break
+								}
+							}
+						}
 						t, w = p.do(Cmd{Kind: "run"}, sems, want(18, 19, 23, 8, 9), nil, nil)
 						add(t, "run after upstream was regenerated and committed")
 						s.count("history:edit;run up;commit up;run")
@@ -469,6 +498,7 @@ func onePipe(o *opts, r *rng, s *summary, i int, pl *pipeline, distinct map[stri
 				a := sharers[r.intn(len(sharers))]
 				t, w = p.do(Cmd{Kind: "commit", Targets: []string{a.file}}, sems, want(1, 13), nil, nil)
 				add(t, "commit one of two stages sharing a plain input")
+				blessedStale = true
 				t, w = p.do(Cmd{Kind: "status"}, sems, want(2, 6), nil, nil)
 				add(t, "status of stages sharing a plain input committed at different times")
 				s.count("history:shared-input;commit one;status")
@@ -500,5 +530,56 @@ func onePipe(o *opts, r *rng, s *summary, i int, pl *pipeline, distinct map[stri
 			s.count("targeted:" + c.Kind)
 		}
 	}
+	// commit a downstream target straight after a full run (its upstream stages are committed with
+	// it and their stage files written), lose every cached artifact, check the target out again
+	fsp := want(18, 19, 23, 13)
+	if blessedStale {
+		fsp = want(18, 23, 13) // the consistency clause presupposes commits only after runs
+	}
+	t, w = p.do(Cmd{Kind: "run"}, sems, fsp, nil, nil)
+	add(t, "final run")
+	if t.OK {
+		ref := logicalRoot(w) // links followed: what the files say, whatever is a link by now
+		target := pl.stages[len(pl.stages)-1]
+		t, w = p.do(Cmd{Kind: "commit", Targets: []string{target.file}, Copy: r.chance(1, 3)}, sems, want(11, 1, 27, 13), nil, nil)
+		add(t, "commit of the last stage after the final run")
+		if t.OK {
+			for _, st := range pl.stages {
+				if !st.skip {
+					rmrf(filepath.Join(p.Root, strings.Split(st.out, "/")[0]))
+				}
+			}
+			t, w = p.do(Cmd{Kind: "checkout", Targets: []string{target.file}, Copy: r.chance(1, 2)}, sems, want(11, 3, 27, 13), ref, nil)
+			add(t, "checkout of the last stage after losing the artifacts")
+			s.count("history:run;commit last;lose artifacts;checkout last")
+		}
+	}
 	return ts
+}
+
+// logicalRoot returns the workspace tree with every link into the cache replaced by the bytes of the
+// object it points to.
+func logicalRoot(w *World) *Node {
+	objs := map[string][]byte{}
+	for _, o := range w.Cache {
+		objs[o.Digest] = o.Data
+	}
+	var conv func(n *Node) *Node
+	conv = func(n *Node) *Node {
+		switch n.Kind {
+		case "lc":
+			if b, ok := objs[string(n.Data)]; ok {
+				return nFile(b)
+			}
+			return n.clone()
+		case "d":
+			d := &Node{Kind: "d"}
+			for _, e := range n.Ents {
+				d.Ents = append(d.Ents, Ent{e.Name, conv(e.N)})
+			}
+			return d
+		}
+		return n.clone()
+	}
+	return conv(w.Root)
 }
